@@ -256,6 +256,14 @@ def gen_scenario(rng, mode):
             # the interruption comes from outside: SIGINT delivered to doit while a cmd-action child runs
             tasks[ti]['kind'] = 'cmdsig'
             exc = 'SIGINT'
+        if (pre != 'none' and where in ('action', 'val') and not tasks[ti].get('versioned') and rng.random() < 0.3):
+            # the dodo file was edited between the runs: ti's file_dep set SHRANK (nothing else changed for it), so it is
+            # stale only by its dependency set; the pre-run used the larger set
+            extra = [f for f in ('src_%d' % j for j in range(n)) if f not in tasks[ti]['file_dep']]
+            if extra:
+                tasks[ti]['pre_file_dep'] = tasks[ti]['file_dep'] + [rng.choice(extra)]
+                if rng.random() < 0.6:
+                    sc['edits'] = [i for i in sc['edits'] if 'src_%d' % i not in tasks[ti]['pre_file_dep']]
         sc['interrupt'] = '%s:%s:%s' % (ti, where, exc)
     return sc
 
@@ -346,6 +354,9 @@ def prepare(sc, root):
         write_src(d, i, 'v1 of %d\n' % i, 1000 + i)
     if sc['pre'] != 'none':
         pre_sc = dict(sc, failing=[], runner='serial')
+        # a task may have had a larger file_dep set when the pre-run was made (dodo file edited since)
+        pre_sc['tasks'] = {t: (dict(spec, file_dep=spec['pre_file_dep']) if spec.get('pre_file_dep') else spec)
+                           for t, spec in sc['tasks'].items()}
         with open(os.path.join(d, 'scenario.json'), 'w') as f:
             json.dump(pre_sc, f)
         run_doit(d, pre_sc, 'pre')
